@@ -70,6 +70,9 @@ def expr_family(tier):
             # conditionals with a constant arm (all four forms), alone and nested inside other operators
             "a ? b : 1'b1", "a ? b : 1'b0", "a ? 1'b1 : b", "a ? 1'b0 : b", "a ? b : 1'h1", "(a ? b : 1'b1) & c", "~(a ? 1'b0 : b) | c", "a ? (b ? c : 1'b1) : 1'b0", "a & b ? 1'b1 : c ^ d",
             "a ? b : a", "a ? a : b", "a ? ~a : b",
+            # conditionals chained without parentheses (right-associative), stacked negations, 1-bit constants in every base / case
+            "a ? b : c ? d : a", "a ? b ? c : d : a", "a ? b : c ? d : b ? a : c", "a | b ? c : d ? a : b", "~~a", "!~a & ~!b", "~!~a | b", "~~(a & b) ^ c",
+            "a & 1'd1", "a | 1'B0", "a ^ 1'H1", "a | 1'o0 | 1'D0", "1'O1 & b",
             # the same net on both sides of an operator (a circuit gate's fan-in is a set)
             "a ^ a", "a ~^ a", "a & a", "a | a", "(a ^ a) | b", "a ^ b ^ a", "(a & b) ^ (a & b)", "~(a ~^ a) & b", "a ^ a ^ a",
             "1'b0", "1'b1", "1'h0", "1'h1", "a & 1'b1", "a | 1'b0", "a ^ 1'b1 ^ b", "1'b0 ? a : b", "a ? 1'b1 : 1'b0", "a & b | c & d", "a | b & c | d", "a ^ b & c ^ d", "a | b ^ c & d"]
@@ -154,8 +157,10 @@ def precedence_rule(chk, lark):
     chk.ob("C02.S.precedence.order", "grammar::^ ~^ ^~ share a level", len({seen_ops.get(x) for x in ("^", "~^", "^~")}) == 1 and seen_ops.get("^") is not None, file=GR, func="grammar", fact={"level_depths": seen_ops}, expect="same level")
     # unary operators apply to a primary; parentheses re-enter at or above the loosest binary level
     un = [alt for alt in prods.get("not_gate", []) if len(alt) == 2 and alt[0][1]]
-    chk.ob("C02.S.precedence.unary", "grammar::~ ! apply to a primary", bool(un) and all(a[1][0] == order[-1] for a in un) and {term.get(a[0][0]) for a in un} == {"~", "!"}, file=GR, func="not_gate",
-           fact={"alternatives": [[term.get(x[0], x[0]) if x[1] else x[0] for x in a] for a in un]}, expect="not_gate: ('!'|'~') primary")
+    # the operand is a primary, or the unary level itself (`~~a`, `!~a`: right recursion) - never a binary level (`~a & b` is `(~a) & b`)
+    unary_levels = {order[-1]} | {lv for lv in order if any(len(a) == 1 and a[0][0] == "not_gate" for a in prods.get(lv, []))}
+    chk.ob("C02.S.precedence.unary", "grammar::~ ! apply to a primary", bool(un) and all(a[1][0] in unary_levels for a in un) and {term.get(a[0][0]) for a in un} == {"~", "!"}, file=GR, func="not_gate",
+           fact={"alternatives": [[term.get(x[0], x[0]) if x[1] else x[0] for x in a] for a in un]}, expect="not_gate: ('!'|'~') primary  (or the unary level itself)")
     par = [alt for alt in prods.get(order[-1], []) if len(alt) == 3 and alt[0][1] and term.get(alt[0][0]) == "("]
     loosest_binary = min([d for d in seen_ops.values() if d is not None] or [99])
     chk.ob("C02.S.precedence.parentheses", "grammar::( ) re-enter at the loosest level", bool(par) and all(depth.get(a[1][0], 99) <= loosest_binary for a in par), file=GR, func=order[-1],
@@ -175,14 +180,29 @@ def run(chk):
     lark = load_lark(repo.grammar_text)
     rule_names = {str(r.origin.name) for r in lark.rules}
     cls = repo.cls(FILE, "_VerilogCircuitGraphTransformer")
+    # the transformer may be spread over base classes of the module: their methods are its methods
+    family, grew = ["_VerilogCircuitGraphTransformer"], True
+    while grew:
+        grew = False
+        for cn in list(family):
+            cd = repo.classes.get((FILE, cn))
+            for b in (cd.bases if cd is not None else ()):
+                bn = ast.unparse(b).split(".")[-1]
+                if (FILE, bn) in repo.classes and bn not in family:
+                    family.append(bn)
+                    grew = True
+    family_nodes = [repo.classes[(FILE, cn)] for cn in family]
+    family_methods = [m for cn in family for m in repo.methods(FILE, cn)]
     # helpers - as opposed to callbacks lark calls by rule name - are the methods the class itself reaches through `self.<name>`
     # and the ones that are not plain methods (properties, static / class methods)
-    helpers = {"__init__"} | {n.attr for n in ast.walk(cls.node if hasattr(cls, "node") else cls) if isinstance(n, ast.Attribute) and isinstance(n.value, ast.Name) and n.value.id == "self"}
+    helpers = {"__init__"} | {n.attr for cd in family_nodes for n in ast.walk(cd) if isinstance(n, ast.Attribute) and isinstance(n.value, ast.Name) and n.value.id == "self"}
+    helpers |= {n.attr for cd in family_nodes for n in ast.walk(cd) if isinstance(n, ast.Attribute) and isinstance(n.value, ast.Call) and isinstance(n.value.func, ast.Name) and n.value.func.id == "super"}
     # ... or that helper classes of the module reach through a reference to the transformer (`self.transformer.add_blackbox(...)`)
     helpers |= {n.attr for n in ast.walk(repo.tree[FILE]) if isinstance(n, ast.Attribute) and isinstance(n.value, ast.Attribute)}
-    helpers |= {m.node.name for m in repo.methods(FILE, "_VerilogCircuitGraphTransformer")
+    helpers |= {m.node.name for m in family_methods
                 if any(ast.unparse(d).split(".")[-1] in ("property", "staticmethod", "classmethod", "cached_property", "setter") for d in m.node.decorator_list)}
-    callbacks = [m for m in repo.methods(FILE, "_VerilogCircuitGraphTransformer") if m.node.name not in helpers and not m.node.name.startswith("_")]
+    callbacks = [m for m in family_methods if m.node.name not in helpers and not m.node.name.startswith("_")]
+    callbacks = list({m.node.name: m for m in callbacks}.values())
     for m in callbacks:
         chk.ob("C02.G.callback-names-a-rule", f"{m.node.name}", m.node.name in rule_names, file=FILE, func=m.qual, line=m.node.lineno,
                fact={"callback": m.node.name}, expect="a rule of verilog.lark (an orphan callback is never invoked: lark returns a bare Tree)")
@@ -190,9 +210,17 @@ def run(chk):
     need_cb = ["module", "input_declaration", "output_declaration", "module_instantiation", "assignment", "not_gate", "and_gate", "or_gate", "xor_gate", "xnor_gate", "ternary", "constant_zero", "constant_one"]
     have = {m.node.name for m in callbacks}
     # a callback may also be a class-level name bound to a callable (`and_gate = partialmethod(_operator_gate, "and", 2)`)
-    cnode = cls.node if hasattr(cls, "node") else cls
-    have |= {t.id for st in cnode.body if isinstance(st, (ast.Assign, ast.AnnAssign)) and isinstance(getattr(st, "value", None), (ast.Call, ast.Name, ast.Lambda))
+    have |= {t.id for cnode in family_nodes for st in cnode.body if isinstance(st, (ast.Assign, ast.AnnAssign)) and isinstance(getattr(st, "value", None), (ast.Call, ast.Name, ast.Lambda))
              for t in (st.targets if isinstance(st, ast.Assign) else [st.target]) if isinstance(t, ast.Name)}
+    # ... or a method a registration hook of the hierarchy stores on the class when the class statement runs (`setattr(cls, f"{gate}_gate", ...)`
+    # in `__init_subclass__`): read off the class the evaluator built
+    from ..verilogmodel import prepare_parser_env
+
+    built = prepare_parser_env(P).get("_VerilogCircuitGraphTransformer")
+    if type(built).__name__ == "UserClass":
+        from ..userclass import _MISSING
+
+        have |= {r for r in need_cb if built._uc_lookup(r) is not _MISSING}
     for r in need_cb:
         chk.ob("C02.G.rule-has-callback", r, r in have and r in rule_names, file=FILE, func=f"_VerilogCircuitGraphTransformer.{r}", fact={"rule_in_grammar": r in rule_names, "callback": r in have},
                expect="rule present in the grammar with a transformer callback")
@@ -284,6 +312,10 @@ def run(chk):
         "unconnected-input-pin": (["dff u0 (.clk(), .d(a), .q(o), .qn(v));"], {"clk": None, "d": "a", "q": "o", "qn": "v"}),
         "one-net-on-two-input-pins": (["dff u0 (.clk(a), .d(a), .q(o), .qn(v));"], {"clk": "a", "d": "a", "q": "o", "qn": "v"}),
         "feedback-net-on-input-and-output-pin": (["dff u0 (.clk(ck), .d(w), .q(w), .qn(v));", "assign o = w;"], {"clk": "ck", "d": "w", "q": "w", "qn": "v"}),
+        # pins omitted from the connection list - some of them, all of them (an empty list)
+        "omitted-pins": (["dff u0 (.d(a), .q(o));"], {"clk": None, "d": "a", "q": "o", "qn": None}),
+        "every-pin-omitted": (["dff u0 ();", "assign o = a;"], {"clk": None, "d": None, "q": None, "qn": None}),
+        "every-pin-omitted, second instance connected": (["dff u0 (), u1 (.clk(ck), .d(a), .q(o));"], {"clk": None, "d": None, "q": None, "qn": None}),
     }
     for name, (body, conns) in cases.items():
         text = module_text(["ck", "a"], ["o"], ["w", "v", "t"], body)
@@ -411,6 +443,38 @@ def run(chk):
         except ValueError as ex:
             prob = {"problem": "the circuit is not well formed (a single-input gate with several drivers, ...)", "error": str(ex)[:120]}
         chk.ob("C02.O.item-order", f"order::{oname}", prob is None, file=FILE, func="_VerilogCircuitGraphTransformer", fact=prob or {"items": len(items)}, expect="the same circuit for every ordering of declarations, instances and assigns")
+
+    # ---- W: the diagnostics flags only report ---------------------------------
+    # `warnings=True` prints about unused nets, `error_on_warning=True` turns such a report into VerilogParsingWarning: neither
+    # changes the circuit that is returned
+    warn_cases = {
+        "nothing to report": (module_text(["a", "b"], ["o"], ["w"], ["and g0(w, a, b);", "assign o = ~w;"]), [], False),
+        "an unused input": (module_text(["a", "b", "spare"], ["o"], [], ["assign o = a & b;"]), [], True),
+        "a wire that drives nothing": (module_text(["a", "b"], ["o"], ["w", "dead"], ["and g0(w, a, b);", "or g1(dead, a, w);", "assign o = w;"]), [], True),
+        "a wire without a driver": (module_text(["a"], ["o"], ["float"], ["and g0(o, a, float);"]), [], True),
+        "an unconnected blackbox output": (module_text(["ck", "a"], ["o"], [], ["dff u0 (.clk(ck), .d(a), .q(o), .qn());"]), [ff], True),
+    }
+    for name, (text, bbs, reportable) in warn_cases.items():
+        n_parse += 3
+        try:
+            base = full_parse(P, text, bbs)
+            loud = full_parse(P, text, bbs, True, False)
+            prob = None if loud._snapshot()[:3] == base._snapshot()[:3] and set(loud.blackboxes) == set(base.blackboxes) else {
+                "problem": "warnings=True changes the circuit", "nodes_without_flag": sorted(base.nodes()), "nodes_with_flag": sorted(loud.nodes())}
+            if prob is None:
+                try:
+                    strict = full_parse(P, text, bbs, True, True)
+                    if reportable:
+                        prob = {"problem": "error_on_warning=True accepts a netlist with an unused net"}
+                    elif strict._snapshot()[:3] != base._snapshot()[:3]:
+                        prob = {"problem": "error_on_warning=True changes the circuit of a netlist with nothing to report"}
+                except ParseError as ex:
+                    if not reportable or ex.kind != "VerilogParsingWarning":
+                        prob = {"problem": "error_on_warning=True", "error": str(ex)[:160], "something_to_report": reportable}
+        except ParseError as ex:
+            prob = {"error": str(ex)[:200]}
+        chk.ob("C02.W.flags-only-report", f"warnings::{name}", prob is None, file=FILE, func="_VerilogCircuitGraphTransformer.check_for_warnings", fact=prob or {},
+               expect="the same circuit with and without warnings=True; VerilogParsingWarning under error_on_warning=True exactly when there is something to report")
 
     # ---- C: through io.verilog_to_circuit (module extraction + any preprocessing), with comments -------------------
     com_cases = {
